@@ -56,7 +56,12 @@ impl DualAverage {
         let w = 1. / (self.count as f64 + self.settings.t0);
         self.hbar = (1. - w) * self.hbar + w * (target - accept_stat);
         self.log_step = self.mu - self.hbar * (self.count as f64).sqrt() / self.settings.gamma;
-        self.log_step = self.log_step.min(self.settings.max_step_size.ln());
+        // Keep the iterate inside the range of positive normal numbers: a long run of
+        // zero acceptance must not let the step size underflow to exactly 0.
+        self.log_step = self
+            .log_step
+            .min(self.settings.max_step_size.ln())
+            .max(f64::MIN_POSITIVE.ln());
         let mk = (self.count as f64).powf(-self.settings.k);
         self.log_step_adapted = mk * self.log_step + (1. - mk) * self.log_step_adapted;
         self.count += 1;
